@@ -189,9 +189,10 @@ def main() -> int:
             inventory += [("tag", e["tag"]), ("module", e["module"])] + [("parameter", p["python_name"]) for loc in e["params"].values() for p in loc]
         for what, nm in inventory:
             ev.count("names_walked")
-            if nm == "" and set(pre) <= {"_"} and what in ("class", "module"):
-                # a name of delimiters only under a field_prefix of underscores only: nothing is left after pascal / snake casing
-                vd.violation(f"empty_identifier:{what}:underscore_only_prefix", f"{what} name '' derived for {X!r} ({slot}) under field_prefix {pre!r}", w)
+            if not ident_ok(nm) and set(pre) <= {"_"} and what in ("class", "module") and (nm == "" or nm[0].isdigit()):
+                # a name that needs the prefix (delimiters only, leading digit) under a field_prefix of underscores only: pascal / snake
+                # casing strips the prefix again
+                vd.violation(f"prefix_lost:{what}:underscore_only_prefix", f"{what} name {nm!r} derived for {X!r} ({slot}) under field_prefix {pre!r}", w)
             elif not ident_ok(nm):
                 vd.violation(f"invalid_identifier:{what}:{slot if kind == 'name' else 'collision_fallback'}", f"{what} name {nm!r} derived for {X!r} ({slot}) is not a valid non-keyword identifier", w)
             elif not nfkc_stable(nm):
@@ -207,8 +208,8 @@ def main() -> int:
             if "unterminated string" in msg:
                 ev.count("string_literal_broken_by_control_character(C05)")
                 continue  # the derived identifier is fine; the wire-name *string literal* is broken: C05's newline class
-            if set(pre) <= {"_"} and re.search(r"^class :|^from \.+\w*\.? import \(?$|import $|models/_\.py", (text or "") + " " + rel):
-                vd.violation("syntax_error:empty_identifier:underscore_only_prefix", f"{rel}: {msg}: {text}", w)
+            if set(pre) <= {"_"} and re.search(r"^class( \d\w*)?( ?\(.*\))?:|^from \.+(\d\w*)?\.? import|import( \d\w*)?$|models/(_|\d\w*)\.py|^(\d\w*) = ", (text or "") + " " + rel):
+                vd.violation("syntax_error:prefix_lost:underscore_only_prefix", f"{rel}: {msg}: {text}", w)
                 continue
             vd.violation(f"syntax_error:{slot if kind == 'name' else 'collision:' + slot}", f"{rel}: {msg}: {text}", w)
         # ---- V3: merges per scope
